@@ -3,6 +3,7 @@ package main
 import (
 	"encoding/json"
 	"fmt"
+	"github.com/Trendyol/go-dcp/config"
 	"strings"
 	"time"
 
@@ -194,13 +195,14 @@ func init() {
 				{Scenario: "c14_loop", Params: mustJSON(LoopParams{Depth: d}), Bound: 0, Shards: 8},
 				{Scenario: "c02_twogroups", Params: mustJSON(struct{}{}), Bound: 0, Note: "distinct group names in ONE process address distinct documents (the saves of one group never touch the other's)"},
 				// the filter for reserved keys does not depend on where the library keeps its own documents
-				{Scenario: "pipe", Params: mustJSON(PipeParams{Mode: "gen", Alphabet: []string{"M", "Mres", "Mtxn", "Dres", "Minfix"}, Depth: 3, Ops: []string{"deliver0", "deliver1", "ackold"}, Backend: "file"}), Bound: 0, Shards: 4, Note: "reserved / transaction keys under file metadata"},
-				{Scenario: "pipe", Params: mustJSON(PipeParams{Mode: "gen", Alphabet: []string{"M", "Mres", "Mtxn", "Dres", "Minfix"}, Depth: 3, Ops: []string{"deliver0", "deliver1", "ackold"}, MetaBucket: true}), Bound: 0, Shards: 4, Note: "reserved / transaction keys with the checkpoints in a second bucket"},
+				{Scenario: "pipe", Params: mustJSON(PipeParams{Mode: "gen", Alphabet: []string{"M", "Mres", "Mtxn", "Dres", "Eres", "Minfix"}, Depth: 3, Ops: []string{"deliver0", "deliver1", "ackold"}, Backend: "file"}), Bound: 0, Shards: 4, Note: "reserved / transaction keys under file metadata"},
+				{Scenario: "pipe", Params: mustJSON(PipeParams{Mode: "gen", Alphabet: []string{"M", "Mres", "Mtxn", "Dres", "Eres", "Minfix"}, Depth: 3, Ops: []string{"deliver0", "deliver1", "ackold"}, MetaBucket: true}), Bound: 0, Shards: 4, Note: "reserved / transaction keys with the checkpoints in a second bucket"},
 				{Scenario: "c14_loop", Params: mustJSON(LoopParams{Depth: d, Rebalance: true}), Bound: 0, Shards: 8, Note: "alphabet extended by a real Rebalance()"},
 				{Scenario: "c14_loop", Params: mustJSON(LoopParams{Depth: d, Failover: true}), Bound: 0, Shards: 8, Note: "alphabet extended by a fail-over without rollback (transient end, re-open under a new vbUUID)"},
 				{Scenario: "c14_loop", Params: mustJSON(LoopParams{Depth: d, Failover: true, Stored: true}), Bound: 0, Shards: 8, Note: "the same from a stored checkpoint of an earlier session (the loaded positions carry the vbUUID of that time)"},
 				{Scenario: "c14_loop", Params: mustJSON(LoopParams{Depth: d, Rebalance: true, Stored: true}), Bound: 0, Shards: 8, Note: "Rebalance() alphabet from a stored checkpoint"},
 				{Scenario: "c14_loop", Params: mustJSON(LoopParams{Depth: d, Rebalance: true, Latest: true}), Bound: 0, Shards: 8, Note: "autoReset=latest with the Rebalance() alphabet: a vBucket that only ever received the library's own documents is loaded by the next session without being flagged"},
+				{Scenario: "c14_finite_runs", Params: mustJSON(struct{}{}), Bound: 0, Note: "finite mode, run after run on a bucket that holds the checkpoints: a run that sees only library documents writes nothing"},
 				{Scenario: "c14_loop", Params: mustJSON(LoopParams{Depth: d, SkipUntil: true}), Bound: 0, Shards: 8, Note: "skipUntil one hour ahead of the server clock: the library's own documents are also 'old'"},
 				{Scenario: "c14_loop", Params: mustJSON(LoopParams{Depth: d, ReopenFault: true}), Bound: 0, Shards: 8, Note: "alphabet extended by a transient end whose first re-open attempt is rejected"},
 				{Scenario: "c14_loop", Params: mustJSON(LoopParams{Sched: true}), Bound: b, Shards: 8, Note: "fixed history deliver,ack,commit,tick,tick over all schedules within the bound"},
@@ -429,4 +431,61 @@ func loopMain(p LoopParams) {
 		}
 	}
 	vrt.SetOutcome(fmt.Sprintf("%v|consumed=%d|writes=%d|quiet=%d", hist, len(e.Cons.Events), len(c.Writes), quiet))
+}
+
+// c14_finite_runs: the metadata bucket is the streamed bucket and the client runs in finite mode, run after run
+// (a batch job). Run 1 finds a user document, acknowledges it and stores its checkpoint when it ends; every later
+// run finds nothing but the checkpoint documents of its predecessors: it absorbs them, ends and writes NOTHING -
+// otherwise every run would write checkpoints that the next run has to read, for ever.
+func init() {
+	scenarios["c14_finite_runs"] = func(raw json.RawMessage) *vrt.Scenario {
+		return &vrt.Scenario{Name: "c14_finite_runs", FreeChoices: true, NoTimerAlt: true, MaxSteps: 400000, Main: func() {
+			resetGlobals()
+			userVb := uint16(vrt.Choose(2, true, "user-document-on-vb"))
+			o := EnvOpts{Vbs: 2, CheckpointType: "auto", CheckpointInterval: 1000 * time.Second, Mode: config.DcpModeFinite, WrapMeta: true}
+			c := NewCluster(&o)
+			c.MetaLoop = true
+			c.Append(userVb, marker(1, 1), mut(1, "user1"))
+			var writesPerRun []int
+			for run := 1; run <= 4; run++ {
+				w0 := len(c.Writes)
+				e := NewEnv(c, o)
+				e.Cons.AutoAck = true
+				e.Stream.Open()
+				for i := 0; i < 100 && !vrt.Closed(e.StopCh); i++ {
+					vrt.Sleep(100 * time.Millisecond)
+				}
+				vrt.Quiesce()
+				c.WaitIdle()
+				if !vrt.Closed(e.StopCh) {
+					vrt.Failf("run %d: the finite run did not end", run)
+					return
+				}
+				// (what dcp.close() does)
+				e.Stream.Save()
+				e.Stream.Close(false)
+				vrt.Quiesce()
+				c.WaitIdle()
+				for _, d := range e.Cons.Events {
+					if strings.HasPrefix(d.Key, reservedPrefix) {
+						vrt.Failf("run %d: the consumer was shown the library's own document %q", run, d.Key)
+					}
+				}
+				writesPerRun = append(writesPerRun, len(c.Writes)-w0)
+				c.KillAgents()
+				e.Cons.Disabled = true
+			}
+			if writesPerRun[0] == 0 {
+				vrt.Failf("run 1 acknowledged one user document and stored nothing (writes per run %v)", writesPerRun)
+			}
+			// run 2 may store the position its predecessor's checkpoint document carried its vBucket to? no: absorbed
+			// library documents do not flag a vBucket - nothing is written from run 2 on
+			for i := 1; i < len(writesPerRun); i++ {
+				if writesPerRun[i] != 0 {
+					vrt.Failf("run %d saw nothing but the library's own documents and wrote %d checkpoint(s) (writes per run %v): every run feeds the next one", i+1, writesPerRun[i], writesPerRun)
+				}
+			}
+			vrt.SetOutcome(fmt.Sprintf("user on vb%d|%v", userVb, writesPerRun))
+		}}
+	}
 }
